@@ -193,6 +193,15 @@ def compare(o):
         o["diffs"].append("per-change outcomes differ: model %s, gopatch %s" % (msteps, isteps))
         return
     if "err" in isteps:
+        # a failing change is an error of the whole file: both entry points must report it
+        first = next(s["replace_err"] for s in r["steps"] if s["replace_err"])
+        if not r.get("api_err"):
+            o["api_swallowed"] = first
+            o["diffs"].append("a change fails when the changes are run one by one (%s) but patch.File.Apply returns no error" % first[:160])
+        cli = o.get("cli")
+        if cli is not None and cli[0] == 0:
+            o["cli_differs"] = "a change fails (%s) but the binary exits 0" % first[:120]
+            o["diffs"].append(o["cli_differs"]); o["cli_output"] = cli[1]
         return
     cli = o.get("cli")
     if cli is not None and "err" not in isteps:
